@@ -1,9 +1,10 @@
 SPECIFICATION Spec
-CONSTANTS N = 86400 MaxSteps = 4 InvertStartBySecTruncation = FALSE CaptureAtJoinEpoch = FALSE CacheIgnoresEpoch = FALSE MaxJoinSteps = 0
+CONSTANTS N = 86400 MaxSteps = 4 InvertStartBySecTruncation = FALSE CaptureAtJoinEpoch = FALSE CacheIgnoresEpoch = FALSE LocalTimeEpoch = FALSE MaxJoinSteps = 0
 CONSTANT Lons <- LonsAll
 CONSTANT Theta0s <- ThetasAll
 CONSTANT StartSecs <- Secs60
 CONSTANT PriorAngles <- NoPrior
+CONSTANT Zones <- ZonesUtc
 CONSTANT Plans <- PlansThorough
 CONSTANT Dts <- OneDt
 INVARIANT SiteEpochAgrees
